@@ -34,6 +34,7 @@ ObsSt(e) == [ conn  |-> SetOf(e.st.conn),
               cbind |-> SetOf(e.st.cbind),
               data  |-> [c \in Cells |-> e.st.data[c]],
               rdata |-> [p \in Peers |-> e.st.rdata[p]],
+              rucs  |-> [p \in Peers |-> e.st.rucs[p]],
               ucs   |-> SetOf(e.st.ucs),
               nid   |-> e.st.nid,
               \* not observable through the API: carried by the monitor (see Step)
@@ -82,7 +83,7 @@ Comp(x, c) == CASE c = "out"   -> x.out
                 [] c = "csub"  -> x.st.csub
                 [] c = "cbind" -> x.st.cbind
                 [] c = "data"  -> x.st.data
-                [] c = "rdata" -> x.st.rdata
+                [] c = "rdata" -> <<x.st.rdata, x.st.rucs>>
                 [] c = "cbf"   -> x.cbf
                 [] c = "ucs"   -> x.st.ucs
                 [] c = "reqs"  -> x.st.nid
